@@ -269,7 +269,7 @@ def run(chk: core.Check):
         chk.mismatch(rj["clause"], {"kind": "stack", "value": show(x), "abstract": c["v"], "fs": fs, "inplace": inplace},
                      {"outcome": c["out"], "value": show(got)}, rj["expected"],
                      spec={"module": "Trace_Month"}, kind="month_stack")
-    chk.assumptions += ["bool values and non-ASCII digit/case look-alikes are only checked for 'no exception'",
+    chk.assumptions += ["bool values and non-ASCII digit look-alikes are only checked for 'no exception'; a word that only case-FOLDS to a month name (ſep, auguﬆ) is an other word",
                         "metadata message strings are not compared"]
 
 
